@@ -700,6 +700,8 @@ impl<Key, Value> CacheD<Key, Value>
     pub fn verif_command_queue_len(&self) -> usize { self.command_executor.verif_queue_len() }
 
     pub fn verif_access_queue_len(&self) -> usize { self.admission_policy.verif_access_queue_len() }
+
+    pub fn verif_sketch_total_increments(&self) -> u64 { self.admission_policy.verif_sketch_total_increments() }
 }
 
 pub struct MultiGetIterator<'a, Key, Value>
